@@ -23,6 +23,14 @@ def is_prefix(a, b):
     return len(a) <= len(b) and b[:len(a)] == a
 
 
+def dg_prefix(a, b):
+    """datagram lists of one direction: all but the last equal, the last one a beginning of its counterpart (datagrams captured at the same
+    instant are exported as one: C08_quic_datagrams states exactly this for the model)"""
+    if not a:
+        return True
+    return len(a) <= len(b) and a[:-1] == b[:len(a) - 1] and is_prefix(a[-1], b[len(a) - 1])
+
+
 def check_cuts(impl, pkts, keylog, args, ck, hist, label, model=None, opts=None):
     """every cut position of one capture; returns list of failures"""
     fails, disagreements = [], []
@@ -34,6 +42,7 @@ def check_cuts(impl, pkts, keylog, args, ck, hist, label, model=None, opts=None)
         full, full_udp = streams_by_flow(out)
     except readback.Bad as e:
         return [{"what": "%s: full capture: output unreadable: %s" % (label, e), "capture": full_cap.hex(), "keylog": keylog, "args": args}], []
+    prev, prev_udp = {}, {}
     for n in range(len(pkts) + 1):
         cap = capgen.to_pcapng(pkts[:n])
         st, out, it = tlsgen.run_impl(impl, cap, keylog, args)
@@ -51,8 +60,17 @@ def check_cuts(impl, pkts, keylog, args, ck, hist, label, model=None, opts=None)
                     elif not (is_prefix(c, full[flow][0]) and is_prefix(s, full[flow][1])):
                         why = "exported stream of the cut capture is not a prefix of the full export (client %d/%d, server %d/%d bytes)" % (len(c), len(full[flow][0]), len(s), len(full[flow][1]))
                 for flow, dgs in part_udp.items():
-                    if not is_prefix(dgs, full_udp.get(flow, [])):
+                    if not dg_prefix(dgs, full_udp.get(flow, [])):
                         why = "exported datagrams of the cut capture are not a prefix of the full export"
+                # ... and every cut capture is itself a capture: one more packet never retracts or alters what was already exported
+                for flow, (c0, s0) in prev.items():
+                    c1, s1 = part.get(flow, (b"", b""))
+                    if not (is_prefix(c0, c1) and is_prefix(s0, s1)):
+                        why = "the capture cut one packet earlier exports more than this one (client %d -> %d, server %d -> %d bytes): data retracted" % (len(c0), len(c1), len(s0), len(s1))
+                for flow, dgs in prev_udp.items():
+                    if not dg_prefix(dgs, part_udp.get(flow, [])):
+                        why = "the capture cut one packet earlier exports datagrams that this one does not: data retracted"
+                prev, prev_udp = part, part_udp
             except readback.Bad as e:
                 why = "output unreadable: %s" % e
         if why:
@@ -132,6 +150,14 @@ def main():
         if i % 2:
             conns.append(pool.tls_conn(rng, table, h2, idx=2, nrec=3, reclen=50))
         case = pool.build(rng, conns, h2)
+        if i % 2 == 1:
+            # a coarse capture clock: consecutive datagrams, also of opposite directions, share a time stamp (in pairs, in triples, or per tick)
+            mode = rng.choice(["pairs", "triples", "tick"])
+            tick = rng.choice([10000, 1000000])
+            t0, off = min(p_["ts"] for p_ in case.packets), rng.randrange(3)
+            for j, p_ in enumerate(sorted(case.packets, key=lambda q: q["ts"])):
+                p_["ts"] = (p_["ts"] - p_["ts"] % tick + 123) if mode == "tick" else t0 + 1000 * ((j + off) // (2 if mode == "pairs" else 3))
+            hist["clock=coarse-" + mode] += 1
         hist["capture=quic%s" % ("+tls" if i % 2 else "")] += 1
         meta = (i % 3 == 2)
         f, dg = check_cuts(impl, case.packets, case.keylog, ["-a"] if meta else [], ck, hist, "QUIC #%d" % i, model=None)
